@@ -5,9 +5,11 @@ from harness import gen
 from harness.framework import Suite
 
 PID = "C08"
-READY = False
 LEAN_MODS = ["SwcVerif.Props.C08"]
-THEOREMS = []
+THEOREMS = [
+    "C08.getBranches_eq", "C08.branches_partition_edges", "C08.branch_shape", "C08.branch_ends", "C08.getPaths_eq", "C08.paths_one_per_tip",
+    "C08.tips_eq_childless", "C08.tipsOf_childless", "C08.furcations_eq", "C08.furcsOf_ge2", "C08.branchTree_table",
+]
 TRUSTED = ["hand-written models Model/Branches.lean of the traversal callbacks (tied by the c08.decomp correspondence suite)"]
 ASSUMPTIONS = ["the traversal loop is C04's machine (C04.traverse_eq_spec)", "np.setdiff1d returns the sorted ids that never occur as a parent"]
 
@@ -154,7 +156,4 @@ LEVEL_TEXT = ("Kernel-checked for every tree shape: the branches returned by the
               "parent–child edge exactly once, start at the root or a furcation, end at a furcation or tip and pass only through one-child nodes; one path per tip; "
               "tips/furcations are the childless / multi-child nodes; the branch tree keeps exactly root, furcations and tips.")
 LEVEL_NOTE = "Trusted: Lean kernel; hand-written callback models tied to the code on generated trees only; numpy setdiff1d / fancy indexing."
-try:
-    from harness.props._c08_theorems import THEOREMS  # noqa: F401
-except Exception:  # noqa: BLE001
-    pass
+
